@@ -77,6 +77,10 @@ def Package.merge (p q : Package α) (cur : Nat) : Option (Package α) :=
 /-- `PackageTemplate::get_height_timer(cur_height)` -/
 def Package.heightTimer (p : Package α) (cur : Nat) : Nat := getHeightTimer cur p.spendable p.kinds
 
+/-- `PackageTemplate::package_weight(destination_script)` (`anchors` = the channel type supports zero-fee HTLC transactions) -/
+def Package.weight (anchors : Bool) (destLen : Nat) (p : Package α) : Nat :=
+  packageWeight destLen (p.inputs.map fun e => inputWeight anchors e.2.offered e.2.kind)
+
 /-! ### aggregation of fresh requests (update_claims_view_from_requests, "Then try to maximally aggregate `requests`") -/
 
 /-- the inner `for j in 0..i` loop for `requests[i] = r`: the first `requests[j]` with `r.can_merge_with(requests[j])` whose
